@@ -17,9 +17,18 @@ def reports(root):
     try:
         info = extract.get_function(PATH, 'assign_lines_to_regions', root)
         rep.info = info
-        stmts = [s for s in info.node.body if isinstance(s, ast.Assign) and any(isinstance(t, ast.Name) and t.id == 'candidates' for t in s.targets)]
-        if not stmts:
+        # backward slice of `candidates` over the top-level assignments, down to the four bounding-box arrays
+        inputs = {'min_line', 'max_line', 'min_region', 'max_region', 'np'}
+        body = info.node.body
+        last = max([i for i, s in enumerate(body) if isinstance(s, ast.Assign) and any(isinstance(t, ast.Name) and t.id == 'candidates' for t in s.targets)],
+                   default=None)
+        if last is None:
             raise Unsupported('no assignment to `candidates` found')
+        needed, stmts = {'candidates'}, []
+        for s in reversed(body[:last + 1]):
+            if isinstance(s, ast.Assign) and len(s.targets) == 1 and isinstance(s.targets[0], ast.Name) and s.targets[0].id in needed:
+                stmts.insert(0, s)
+                needed |= {n.id for n in ast.walk(s.value) if isinstance(n, ast.Name)} - inputs
         ex = Exec(info, Contract(params={}), {}, name='assign_lines_to_regions[candidates]')
         st = State()
         n, m = z3.Int('n_lines'), z3.Int('n_regions')
